@@ -25,7 +25,7 @@ theorem getD_set {α : Type} (l : List α) (i j : Nat) (a d : α) :
     by_cases h2 : i < l.length
     · simp [h2]
     · have : l[i]? = none := List.getElem?_eq_none (Nat.le_of_not_lt h2)
-      simp [h2, this]
+      simp [h2]
   · simp [h]
 
 /-! ### `std::set` -/
@@ -101,5 +101,120 @@ theorem rowLink_eq_link (n : Nat) (lab : Nat → Nat) (row : List (Nat × Rat)) 
       split_ifs <;> simp
     rw [hsplit, ← ih', Finset.sum_ite_eq (range n) e.1]
     simp [rowLink, Finset.mem_range.mpr he]
+
+/-! ### the neighbour loop: `cluster_weights` receives the weight towards each neighbouring cluster -/
+
+theorem nbrLoop_fold (lab : List Nat) (row : List (Nat × Rat)) (cw : List Rat) (s : List Nat)
+    (hb : ∀ e ∈ row, lab.getD e.1 0 < cw.length) :
+    (row.foldl (nbrStep lab) (cw, s)).1.length = cw.length ∧
+    (∀ x, (row.foldl (nbrStep lab) (cw, s)).1.getD x 0 = cw.getD x 0 + rowLink (fun j => lab.getD j 0) row x) ∧
+    (∀ x, x ∈ (row.foldl (nbrStep lab) (cw, s)).2 ↔ x ∈ s ∨ ∃ e ∈ row, lab.getD e.1 0 = x) ∧
+    (s.Pairwise (· < ·) → (row.foldl (nbrStep lab) (cw, s)).2.Pairwise (· < ·)) := by
+  induction row generalizing cw s with
+  | nil => simp [rowLink]
+  | cons e r ih =>
+    simp only [List.foldl_cons]
+    have he := hb e List.mem_cons_self
+    have hlen : (nbrStep lab (cw, s) e).1.length = cw.length := by simp [nbrStep]
+    have hb' : ∀ e' ∈ r, lab.getD e'.1 0 < (nbrStep lab (cw, s) e).1.length := by
+      intro e' he'; rw [hlen]; exact hb e' (List.mem_cons_of_mem _ he')
+    obtain ⟨h1, h2, h3, h4⟩ := ih (nbrStep lab (cw, s) e).1 (nbrStep lab (cw, s) e).2 hb'
+    refine ⟨by rw [h1, hlen], ?_, ?_, ?_⟩
+    · intro x
+      rw [h2 x]
+      simp only [nbrStep, zero_rat, getD_set, rowLink, List.map_cons, List.sum_cons]
+      by_cases hx : lab.getD e.1 0 = x
+      · subst hx; simp only [he, and_self, if_true]; ring
+      · simp only [hx, false_and, if_false]; ring
+    · intro x
+      rw [h3 x]
+      simp only [nbrStep, mem_setInsert, List.mem_cons]
+      constructor
+      · rintro ((rfl | h) | ⟨e', he', rfl⟩)
+        · exact Or.inr ⟨e, Or.inl rfl, rfl⟩
+        · exact Or.inl h
+        · exact Or.inr ⟨e', Or.inr he', rfl⟩
+      · rintro (h | ⟨e', (rfl | he'), rfl⟩)
+        · exact Or.inl (Or.inr h)
+        · exact Or.inl (Or.inl rfl)
+        · exact Or.inr ⟨e', he', rfl⟩
+    · intro hs
+      exact h4 (setInsert_sorted _ _ hs)
+
+/-! ### the loop over the neighbouring clusters -/
+
+/-- `delta_local` of cluster `t`, read off the arrays -/
+def joinAt (res outW inW delta : Rat) (inCl outCl cw : List Rat) (t : Nat) : Rat :=
+  joinDelta res outW inW (cw.getD t 0) (inCl.getD t 0) (outCl.getD t 0) delta
+
+theorem targetLoop_fold (res outW inW delta : Rat) (inCl outCl : List Rat) (ts : List Nat)
+    (best : Rat) (bl : Nat) (cw : List Rat) (hnd : ts.Nodup) (hb : ∀ t ∈ ts, t < cw.length) :
+    let r := ts.foldl (targetStep res outW inW delta inCl outCl) (best, bl, cw)
+    r.2.2.length = cw.length ∧
+    (∀ x, r.2.2.getD x 0 = if x ∈ ts then 0 else cw.getD x 0) ∧
+    ((r.1 = best ∧ r.2.1 = bl) ∨
+     (r.2.1 ∈ ts ∧ r.1 = joinAt res outW inW delta inCl outCl cw r.2.1 ∧ best < r.1)) ∧
+    (∀ t ∈ ts, joinAt res outW inW delta inCl outCl cw t ≤ r.1) ∧ best ≤ r.1 := by
+  induction ts generalizing best bl cw with
+  | nil => simp
+  | cons t ts ih =>
+    intro r
+    have ht : t < cw.length := hb t List.mem_cons_self
+    have hnd' := (List.nodup_cons.mp hnd)
+    -- the state after the first target
+    set J := joinAt res outW inW delta inCl outCl cw t with hJ
+    have hstep : targetStep res outW inW delta inCl outCl (best, bl, cw) t =
+        (if best < J then (J, t, cw.set t 0) else (best, bl, cw.set t 0)) := by
+      simp only [targetStep, lt_rat, zero_rat, decide_eq_true_eq, hJ, joinAt]
+    have hjoin : ∀ t' ∈ ts, joinAt res outW inW delta inCl outCl (cw.set t 0) t'
+        = joinAt res outW inW delta inCl outCl cw t' := by
+      intro t' ht'
+      have : t ≠ t' := fun h => hnd'.1 (h ▸ ht')
+      simp [joinAt, this]
+    have hb' : ∀ t' ∈ ts, t' < (cw.set t 0).length := by
+      intro t' ht'; simp; exact hb t' (List.mem_cons_of_mem _ ht')
+    have hr : r = ts.foldl (targetStep res outW inW delta inCl outCl)
+        (if best < J then (J, t, cw.set t 0) else (best, bl, cw.set t 0)) := by
+      simp only [r, List.foldl_cons, hstep]
+    by_cases hlt : best < J
+    · simp only [hlt, if_true] at hr
+      obtain ⟨h1, h2, h3, h4, h5⟩ := ih J t (cw.set t 0) hnd'.2 hb'
+      rw [← hr] at h1 h2 h3 h4 h5
+      refine ⟨by simpa using h1, ?_, ?_, ?_, le_trans (le_of_lt hlt) h5⟩
+      · intro x
+        rw [h2 x, getD_set]
+        by_cases hx : x ∈ ts
+        · simp [hx]
+        · by_cases hxt : t = x
+          · subst hxt; simp [ht]
+          · simp [hx, hxt, Ne.symm hxt]
+      · rcases h3 with ⟨e1, e2⟩ | ⟨m, e, l⟩
+        · right
+          refine ⟨by rw [e2]; exact List.mem_cons_self, by rw [e1, e2], by rw [e1]; exact hlt⟩
+        · right
+          refine ⟨List.mem_cons_of_mem _ m, by rw [e, hjoin _ m], lt_trans hlt l⟩
+      · intro t' ht'
+        rcases List.mem_cons.mp ht' with rfl | ht'
+        · exact h5
+        · rw [← hjoin t' ht']; exact h4 t' ht'
+    · simp only [hlt, if_false] at hr
+      obtain ⟨h1, h2, h3, h4, h5⟩ := ih best bl (cw.set t 0) hnd'.2 hb'
+      rw [← hr] at h1 h2 h3 h4 h5
+      refine ⟨by simpa using h1, ?_, ?_, ?_, h5⟩
+      · intro x
+        rw [h2 x, getD_set]
+        by_cases hx : x ∈ ts
+        · simp [hx]
+        · by_cases hxt : t = x
+          · subst hxt; simp [ht]
+          · simp [hx, hxt, Ne.symm hxt]
+      · rcases h3 with ⟨e1, e2⟩ | ⟨m, e, l⟩
+        · left; exact ⟨e1, e2⟩
+        · right
+          exact ⟨List.mem_cons_of_mem _ m, by rw [e, hjoin _ m], l⟩
+      · intro t' ht'
+        rcases List.mem_cons.mp ht' with rfl | ht'
+        · exact le_trans (not_lt.mp hlt) h5
+        · rw [← hjoin t' ht']; exact h4 t' ht'
 
 end SkNet.Modularity
